@@ -15,6 +15,8 @@ func main() {
 	switch os.Args[1] {
 	case "core":
 		cmdCore()
+	case "xgen":
+		cmdXgen()
 	default:
 		fmt.Fprintln(os.Stderr, "unknown command", os.Args[1])
 		os.Exit(2)
